@@ -706,3 +706,9 @@ def probe_known(ctx, finding):
 from props import history as _history  # noqa: E402
 
 correspondence, search, replay = _history.attach(PID, correspondence, search, replay, pasts=['renamed-the-ancestor-of-a-directory-it-had-entered', 'commands-before-login', 'ended-inside-a-multi-byte-character'])
+
+
+# somebody else's classes: the documented extension points used the way a third party uses them (props/thirdparty.py)
+from props import thirdparty as _thirdparty  # noqa: E402
+
+correspondence, search, replay = _thirdparty.attach(PID, correspondence, search, replay)
